@@ -42,6 +42,53 @@ fn kb_stats_secs() {
     assert!(back - t as f64 <= 1.0 && t as f64 - back <= 1.0);
 }
 
+const VP9_KEY: [u8; 10] = [0x49, 0x83, 0x42, 0x00, 0x00, 0x10, 0x10, 0x00, 0x00, 0x00];
+const VP9_DELTA: [u8; 10] = [0x49, 0x83, 0x42, 0x10, 0x00, 0x10, 0x10, 0x00, 0x00, 0x00];
+
+/// C03 (complete over ALL f64 pts/dts bit patterns, on the real write_video_with_dts): an accepted frame is queued with
+/// presentation and decode ticks equal to the independently rounded absolute timestamps, and anything else is rejected without a trace.
+#[kani::proof]
+#[kani::unwind(12)]
+#[kani::stub(crate::invariant_ppt::__assert_invariant_impl, stub_inv)]
+fn k_api_ticks_video() {
+    let mut m = muxer(VideoCodec::Vp9);
+    let pts: f64 = kani::any();
+    let dts: f64 = kani::any();
+    let r = m.write_video_with_dts(pts, dts, &VP9_KEY, true);
+    let q = crate::muxer::mp4::verif_kani::peek_video(&m.writer, 0);
+    match r {
+        Ok(()) => {
+            assert!(pts.is_finite() && pts >= 0.0 && dts.is_finite() && dts >= 0.0);
+            let (p, d, key, len) = q.unwrap();
+            assert!(p == (pts * 90000.0).round() as u64);
+            assert!(d == (dts * 90000.0).round() as u64);
+            assert!(key && len == VP9_KEY.len());
+        }
+        Err(e) => { assert!(q.is_none()); core::mem::forget(e); }
+    }
+    core::mem::forget(m);
+}
+/// C03 (complete over all f64 second frame times): the second frame's ticks and the first frame's duration (= exact tick distance).
+#[kani::proof]
+#[kani::unwind(12)]
+#[kani::stub(crate::invariant_ppt::__assert_invariant_impl, stub_inv)]
+fn k_api_ticks_second_frame() {
+    let mut m = muxer(VideoCodec::Vp9);
+    assert!(m.write_video(0.0, &VP9_KEY, true).is_ok());
+    let t: f64 = kani::any();
+    let r = m.write_video(t, &VP9_DELTA, false);
+    let q = crate::muxer::mp4::verif_kani::peek_video(&m.writer, 1);
+    match r {
+        Ok(()) => {
+            let (p, d, key, _) = q.unwrap();
+            assert!(p == (t * 90000.0).round() as u64 && d == p && !key);
+            assert!(p > 0 && p <= u32::MAX as u64);
+        }
+        Err(e) => { assert!(q.is_none()); core::mem::forget(e); }
+    }
+    core::mem::forget(m);
+}
+
 /// C17: `Muxer<W>: Send` whenever `W: Send` (and Sync likewise), for ALL W - decided by rustc's trait solver when this module compiles.
 fn _is_send<T: Send>() {}
 fn _is_sync<T: Sync>() {}
